@@ -4,4 +4,4 @@
 From Coq Require Extraction.
 From Coq Require Import ExtrOcamlBasic.
 From LP Require Import Model.Exec.
-Extraction "model.ml" exec_sha deploy snapshot world0 init_bal state0.
+Extraction "model.ml" exec_sha deploy snapshot world0 init_bal state0 deposit_size.
